@@ -1,5 +1,6 @@
 """C13 configuration for ./check"""
 CONF = {
+    'coq_sample': 20,   # cases re-evaluated inside Coq by vm_compute against the extracted runner's output
     'interesting': ['options-header', 'duplicate', 'out-of-order-final-first', 'overlap', 'hole',
                     'other-key-interleaved', 'too-many'],
     'rule': 'Histories of DefragIPv4WithTimestamp / DiscardOlderThan calls (and DefragIPv6) on real layers.IPv4 values: '
